@@ -313,3 +313,31 @@ def chunk_get_rule(R, pfx="C15"):
         R.gate(pfx + ".chunk", cg, RetSink("Ok", computed=True),
                [[CmpGuard(src_addr, src_chunk, "Eq", "fetched chunk's address == requested address", close=False)]],
                descr="chunk_get returns Ok(chunk) only when the chunk's own address equals the requested one")
+        # ... and it hands back *every* chunk a holder answers with that is the one asked for: its only refusals of its own are the
+        # address mismatch above and a record of another kind (seed C14-r6: a "hardening" `serialised_size() > MAX_CHUNK_SIZE` refusal —
+        # an incompressible full-size slice is stored 16 bytes over that figure, so honestly stored data no longer downloads)
+        import tables as T_
+
+        class _KindIsChunk:
+            label = "the record's kind is Chunk"
+
+            def edges(self, body):
+                names = T_.variant_names(F, "ant_protocol::storage::header::RecordKind") or {}
+                idx = {v: k for k, v in names.items()}.get("Chunk")
+                acc, rej, n = [], [], 0
+                for blk in body.blocks:
+                    t = blk["term"]
+                    if blk["cleanup"] or t["k"] != "switch" or idx is None:
+                        continue
+                    on = op_local(t["on"])
+                    if not any(st["d"] == [on] and st["rv"]["k"] == "discr" and st["rv"]["p"][-1] == ".kind" for st in blk["stmts"]):
+                        continue
+                    n += 1
+                    vals = {int(v): d for v, d in t["targets"]}
+                    for v, d in vals.items():
+                        (acc if v == idx else rej).append((blk["id"], d))
+                    (rej if idx in vals else acc).append((blk["id"], t["otherwise"]))
+                return n, acc, rej
+        if pfx.startswith("C14"):
+          R.only_propagated_errors(pfx + ".chunk.total", CG, "chunk_get refuses a fetched record only for a wrong kind or a wrong address (no limit of its own on an honestly stored chunk)",
+                                 allow=[("address", CmpGuard(src_addr, src_chunk, "Eq", "fetched chunk's address == requested address", close=False)), ("kind", _KindIsChunk())])
